@@ -243,7 +243,7 @@ def overlap_case(ctx, env):
     from thejoker.thejoker import TheJoker
 
     lib = JokerSamples()
-    n = 64
+    n = 96  # the uniform draws of one call (one per row) shift the parent stream by a whole number of rows' worth of normals for 2, 3 and 4 linear parameters
     lib["P"], lib["e"] = np.full(n, 17.5) * u.day, np.full(n, 0.25) * u.one
     lib["omega"], lib["M0"], lib["s"] = np.full(n, 1.0) * u.rad, np.full(n, 2.0) * u.rad, np.zeros(n) * u.km / u.s
     fn = os.path.join(ctx.scratch, "c10_identical.hdf5")
